@@ -603,11 +603,49 @@ def run_decomp(chk, F, rid="R-DECOMP"):
                   "both conjuncts (never by the constant INVARIANT of the conjunct appended last)")
     T = CheckExprTable(F)
     cur, wr = [], set()
+    closed = True
+
+    def helper_kinds(call, labels):
+        """kinds among `labels` for which a file-local helper called in their clause can produce INVARIANT_WR: the labels
+        of the helper's own kind switch under which the enumerator occurs, or all of them if it has no such switch"""
+        out = set()
+        for t in F.fns(call.get("fn") or ""):
+            if t.get("body") is None or t.get("cls") or not t.get("static"):
+                continue
+            if not any(x.get("dk") == "enumerator" and x.get("name") == "INVARIANT_WR" for x in walk(t["body"])):
+                continue
+            sws = [n for n in walk(t["body"]) if n.get("k") == "switch"]
+            if not sws:
+                out.update(labels)
+                continue
+            for sw in sws:
+                grp, hit = [], False
+                for st in (sw.get("body") or {}).get("s", []):
+                    y = st
+                    while isinstance(y, dict) and y.get("k") in ("case", "default"):
+                        if y["k"] == "case" and isinstance(y.get("v"), dict):
+                            if hit is None:
+                                grp = []
+                            grp.append(y["v"].get("name"))
+                        y = y.get("s")
+                    if isinstance(y, dict) and any(x.get("dk") == "enumerator" and x.get("name") == "INVARIANT_WR" for x in walk(y)):
+                        out.update(set(grp) & set(labels))
+                    if isinstance(y, dict) and y.get("k") in ("break", "return") or \
+                            (isinstance(y, dict) and y.get("k") == "return"):
+                        grp = []
+        return out
     for labels, s in T.items:
         if labels:
-            cur = labels
+            cur = (cur if not closed else []) + labels      # a clause that fell through runs on under the next labels
+            closed = False
         if any(x.get("dk") == "enumerator" and x.get("name") == "INVARIANT_WR" for x in walk(s)):
             wr.update(cur)
+        for c in calls(s):
+            if c.get("ck") in ("free", "static") and c.get("fn"):
+                wr.update(helper_kinds(c, cur))
+        if s.get("k") in ("break", "return") or (s.get("k") == "block" and any(
+                isinstance(x, dict) and x.get("k") in ("break", "return") for x in s.get("s", []))):
+            closed = True
     if not {"AND", "EQ", "FORALL"} <= wr:
         raise AnalysisBroken("kinds typed INVARIANT_WR not found in checkExpression (%s)" % sorted(wr))
     fns = [f for f in F.functions.values() if f.get("name") == "decompose" and (f.get("cls") or "").endswith("RateDecomposer")
